@@ -144,7 +144,7 @@ def scenario(job):
             how = ctx.choose("change", 3)
             if how == 0:
                 parts[t] = parts[t] + [max(parts[t]) + 1, max(parts[t]) + 5]
-            elif how == 1:
+            elif how == 1 and len(parts[t]) > 1:  # (a topic never loses its last partition: it would cease to exist)
                 parts[t] = parts[t][1:]
             ctx.log("cluster-change", t, how, sorted(parts.items()))
             publish()
